@@ -15,6 +15,9 @@ let run_sacn ip univ steps =
   let out = Buffer.create 256 in
   let letters = ref [] in
   let maxsrc = ref 0 in
+  (* text-level instance checker (TextCheck.v) *)
+  let tT = ref [] and tD = ref [] and frozen = ref [] and cap = ref false in
+  let verdicts = ref [] in
   List.iteri (fun i s ->
     match colon s with
     | [dt; vec; cid; prio; seq; u; flags; dmph; pdu] ->
@@ -28,6 +31,24 @@ let run_sacn ip univ steps =
       st := st';
       let after = List.length st'.u_srcs in
       if after > !maxsrc then maxsrc := after;
+      let keep = (match oc with ODiscard -> true | _ -> false) in
+      let merged = (match oc with OMerge (_, _) -> true | _ -> false) in
+      let rx_acc = (match oc with OMerge (Some _, _) -> true | _ -> false) in
+      let ((t', d'), d4) = xstep c (n_of_int !now) keep rx_acc !tT !tD p in
+      if d4 && not (List.mem 4 !verdicts) then verdicts := 4 :: !verdicts;
+      tT := t'; tD := d';
+      if over_cap (n_of_int !now) t' d' then cap := true;
+      if merged then frozen := text_out_unshadowed (n_of_int !now) t' d';
+      let v = if !cap then 0
+              else int_of_n (verdict merged !frozen (n_of_int !now) t' d' st'.u_buf) in
+      if not (List.mem v !verdicts) then verdicts := v :: !verdicts;
+      if Sys.getenv_opt "C08_DEBUG" <> None then
+        prerr_endline (Printf.sprintf "step %d now=%d v=%d buf=%s text=%s unsh=%s frozen=%s T=[%s] D=[%s]" i !now v
+          (hex_of_bytes st'.u_buf) (hex_of_bytes (text_out (n_of_int !now) t'))
+          (hex_of_bytes (text_out_unshadowed (n_of_int !now) t' d'))
+          (hex_of_bytes !frozen)
+          (String.concat ";" (List.map (fun (c, r) -> Printf.sprintf "%s:p%s,t%s,s%s,%b" (ni c) (ni r.t_prio) (ni r.t_time) (ni r.t_seq) r.t_alive) t'))
+          (String.concat ";" (List.map (fun (c, b) -> Printf.sprintf "%s:%b" (ni c) b) d')));
       let cb, l = match oc with
         | OIgnore -> false, "I"
         | ODiscard -> false, (if after < before then "Dx" else "D")
@@ -45,8 +66,18 @@ let run_sacn ip univ steps =
            Printf.sprintf "%s.%s.%s.%s" (ni s.s_cid) (ni s.s_seq) (ni s.s_last) (hex_of_bytes s.s_buf))
            st'.u_srcs)))
     | _ -> failwith "bad sacn step") steps;
-  Buffer.add_string out (Printf.sprintf ";class=sacn:n%d:%s" !maxsrc
-                           (String.concat "" (List.sort compare !letters)));
+  let vs = List.sort compare !verdicts in
+  Buffer.add_string out (Printf.sprintf ";txt=%s" (if List.mem 3 vs then "0" else "1"));
+  if not (List.mem 3 vs) then begin
+    (* the first departure found decides the finding id; both are listed when both occur *)
+    if List.mem 1 vs then Buffer.add_string out ";known=C08-sacn-handdown-gap"
+    else if List.mem 2 vs then Buffer.add_string out ";known=C08-sacn-stale-after-discard"
+    else if List.mem 4 vs then Buffer.add_string out ";known=C08-sacn-seq-window-forgotten"
+  end;
+  Buffer.add_string out (Printf.sprintf ";class=sacn:n%d:%s:txt%s%s" !maxsrc
+                           (String.concat "" (List.sort compare !letters))
+                           (String.concat "" (List.map string_of_int vs))
+                           (if !cap then "cap" else ""));
   Buffer.contents out
 
 let run_art ltp steps =
@@ -55,6 +86,7 @@ let run_art ltp steps =
   let now = ref t0 in
   let out = Buffer.create 256 in
   let letters = ref [] in
+  let gG = ref [] and txt_ok = ref true and wild = ref false in
   List.iteri (fun i s ->
     match colon s with
     | [dt; addr; net; u; lenf; data] ->
@@ -65,6 +97,12 @@ let run_art ltp steps =
       let (port', cb) = art_handle c (n_of_int !now) !port k in
       let live_after = List.length (List.filter (fun a -> a.a_addr <> N0) port'.ap_srcs) in
       port := port';
+      if k.k_addr = N0 then wild := true;
+      let (g', o) = atext_step c (n_of_int !now) !gG k in
+      gG := g';
+      (match o with
+       | None -> if cb then txt_ok := false
+       | Some b -> if not cb || not (list_eqb b port'.ap_buf) then txt_ok := false);
       let l = if not cb then (if live_before >= 2 then "3" else "I")
               else if live_after >= 2 then "M" else if live_after < live_before then "X" else "S" in
       if not (List.mem l !letters) then letters := l :: !letters;
@@ -74,8 +112,10 @@ let run_art ltp steps =
         (String.concat "+" (List.map (fun a ->
            Printf.sprintf "%s.%s.%s" (ni a.a_addr) (ni a.a_ts) (hex_of_bytes a.a_buf)) port'.ap_srcs)))
     | _ -> failwith "bad art step") steps;
-  Buffer.add_string out (Printf.sprintf ";class=art:%s:%s" (if ltp <> "0" then "ltp" else "htp")
-                           (String.concat "" (List.sort compare !letters)));
+  (* 0.0.0.0 is the receiver's "empty slot" marker, not a sender the text speaks about *)
+  Buffer.add_string out (Printf.sprintf ";txt=%s" (if !txt_ok || !wild then "1" else "0"));
+  Buffer.add_string out (Printf.sprintf ";class=art:%s:%s%s" (if ltp <> "0" then "ltp" else "htp")
+                           (String.concat "" (List.sort compare !letters)) (if !wild then ":wild" else ""));
   Buffer.contents out
 
 let handle_payload (p : string) : string =
